@@ -1,6 +1,7 @@
 package harness
 
 import (
+	"fmt"
 	"testing"
 
 	"github.com/kelindar/column"
@@ -116,5 +117,149 @@ func TestC12(t *testing.T) {
 		mc.CheckKeys(t)
 		mc.checkNoDuplicateKeys(t)
 		RecordCase("C12", mc.Desc(), interesting, mc.Labels()...)
+	})
+}
+
+// TestC12Parallel: concurrent key operations under real parallelism. Creating
+// operations (InsertKey/UpsertKey) for a key are issued by its owner only, so
+// known finding f17 (two creators of one absent key) is excluded by
+// construction; everybody may QueryKey/DeleteKey/update any key. Oracle at
+// quiescence: at most one live row per key, and for EVERY key of the alphabet a
+// lookup succeeds iff exactly that row holds it; Count == live rows.
+func TestC12Parallel(t *testing.T) {
+	f26 := KFActive("f26-key-ops-act-on-stale-offset")
+	rapid.Check(t, func(t *rapid.T) {
+		workers := rapid.IntRange(2, 8).Draw(t, "workers")
+		nkeys := rapid.IntRange(2, 12).Draw(t, "keys")
+		ops := rapid.IntRange(50, 400).Draw(t, "ops")
+		prefill := rapid.SampledFrom([]int{0, 0, 100, 16380}).Draw(t, "prefill")
+		c := column.NewCollection(column.Options{Capacity: rapid.SampledFrom([]int{1, 64, 1024}).Draw(t, "capacity"), Vacuum: 24 * 3600 * 1e9})
+		defer c.Close()
+		c.CreateColumn("pk", column.ForKey())
+		c.CreateColumn("n", column.ForInt())
+		c.Query(func(txn *column.Txn) error {
+			for i := 0; i < prefill; i++ {
+				txn.InsertKey(fmt.Sprintf("pre%d", i), func(r column.Row) error { r.SetInt("n", i); return nil })
+			}
+			return nil
+		})
+		seeds := make([]uint32, workers)
+		for i := range seeds {
+			seeds[i] = uint32(rapid.IntRange(1, 1<<30).Draw(t, "seed"))
+		}
+		done := make(chan string, workers)
+		for w := 0; w < workers; w++ {
+			go func(w int) {
+				msg := ""
+				defer func() {
+					if r := recover(); r != nil {
+						msg = fmt.Sprintf("worker %d panicked: %v", w, r)
+					}
+					done <- msg
+				}()
+				x := seeds[w]
+				for i := 0; i < ops; i++ {
+					x = x*1664525 + 1013904223
+					k := int(x>>8) % nkeys
+					key := fmt.Sprintf("k%d", k)
+					owner := k%workers == w
+					if f26 && !owner {
+						// known finding: key operations act on the offset they looked up; while it is
+						// listed, a key is only touched by its owner (offsets are still shared and reused)
+						CountExcluded("C12", "f26-key-ops-act-on-stale-offset")
+						k = (k/workers)*workers + w
+						if k >= nkeys {
+							k = w % nkeys
+							if k%workers != w {
+								continue
+							}
+						}
+						key = fmt.Sprintf("k%d", k)
+						owner = true
+					}
+					switch (x >> 20) % 6 {
+					case 0:
+						if owner {
+							c.InsertKey(key, func(r column.Row) error { r.SetInt("n", w); return nil })
+						}
+					case 1:
+						if owner {
+							c.UpsertKey(key, func(r column.Row) error { r.MergeInt("n", 1); return nil })
+						}
+					case 2:
+						c.DeleteKey(key)
+					case 3:
+						c.QueryKey(key, func(r column.Row) error {
+							if got, ok := r.Key(); ok && got != key {
+								// the row under the cursor holds another key: only legal if it was re-used meanwhile; not judged here
+								_ = got
+							}
+							r.MergeInt("n", 1)
+							return nil
+						})
+					case 4:
+						// delete a pre-filled row by key and re-insert it (offset reuse)
+						if prefill > 0 {
+							pk := fmt.Sprintf("pre%d", (int(x>>4)%prefill/workers)*workers+w)
+							if c.DeleteKey(pk) == nil {
+								c.InsertKey(pk, func(r column.Row) error { return nil })
+							}
+						}
+					default:
+						c.QueryKey(key, func(r column.Row) error { r.Int("n"); return nil })
+					}
+				}
+			}(w)
+		}
+		for w := 0; w < workers; w++ {
+			if msg := <-done; msg != "" {
+				t.Fatalf("C12 violated (free-parallel run): %s", msg)
+			}
+		}
+		// quiescent consistency
+		holders := map[string][]uint32{}
+		rows := 0
+		c.Query(func(txn *column.Txn) error {
+			key := txn.Key()
+			return txn.Range(func(idx uint32) {
+				rows++
+				if k, ok := key.Get(); ok {
+					holders[k] = append(holders[k], idx)
+				}
+			})
+		})
+		if c.Count() != rows {
+			t.Fatalf("C12 violated (free-parallel run): Count()=%d, %d rows are visible", c.Count(), rows)
+		}
+		all := map[string]bool{}
+		for k := range holders {
+			all[k] = true
+		}
+		for k := 0; k < nkeys; k++ {
+			all[fmt.Sprintf("k%d", k)] = true
+		}
+		for i := 0; i < prefill; i += 97 {
+			all[fmt.Sprintf("pre%d", i)] = true
+		}
+		contended := 0
+		for k := range all {
+			hs := holders[k]
+			if len(hs) > 1 {
+				t.Fatalf("C12 violated (free-parallel run): %d live rows %v hold key %q (only its owner ever created it); workers=%d keys=%d", len(hs), hs, k, workers, nkeys)
+			}
+			var at uint32
+			ran := false
+			err := c.QueryKey(k, func(r column.Row) error { ran, at = true, r.Index(); return nil })
+			switch {
+			case len(hs) == 0 && (err == nil || ran):
+				t.Fatalf("C12 violated (free-parallel run): no live row holds key %q but QueryKey reached row %d; workers=%d keys=%d", k, at, workers, nkeys)
+			case len(hs) == 1 && (err != nil || at != hs[0]):
+				t.Fatalf("C12 violated (free-parallel run): row %d holds key %q but QueryKey answered err=%v row=%d; workers=%d keys=%d", hs[0], k, err, at, workers, nkeys)
+			}
+			if len(hs) == 1 {
+				contended++
+			}
+		}
+		RecordCase("C12", fmt.Sprintf("free-parallel workers=%d keys=%d ops=%d prefill=%d", workers, nkeys, ops, prefill), workers >= 2 && nkeys <= 2*workers, "free-parallel")
 	})
 }
